@@ -280,10 +280,14 @@ func (p *podAssignCache) getOrCreateNodeInfo(nodeName string) (_ *nodeInfo, crea
 // NOTICE: nodeInfo should be locked before calling this method.
 func (p *podAssignCache) tryCleanup(name string, n *nodeInfo) {
 	if n.nodeMetric == nil && len(n.podInfos) == 0 {
-		n.deleted = true
 		// only delete action has the chance that goroutine holds two locks,
 		// and the order always will be nodeInfo lock first, then podAssignCache.items lock
+		//
+		// Remove the entry from items before marking it deleted: a concurrent add that observes the deleted
+		// mark retries getOrCreateNodeInfo, and must then not be handed this very entry again (it only
+		// retries once, a second failure drops the event).
 		p.items.CompareAndDelete(name, n)
+		n.deleted = true
 	}
 }
 
